@@ -1,6 +1,7 @@
 package main
 
 import (
+	"math/rand"
 	"crypto/sha256"
 	"encoding/binary"
 	"encoding/hex"
@@ -169,6 +170,48 @@ func scenarioC17(c *Ctx) {
 			seenID[o.msg.MessageID] = i
 		}
 	}
+	// --- concurrent callers: the poller expands a proposal while API handlers and the reconstruction
+	// expand others; every caller must still get the spec root of ITS position ---
+	workers, per := 8, 150
+	if !c.Quick() {
+		per = 1500
+	}
+	type cres struct {
+		i int
+		o posObs
+	}
+	resCh := make(chan []cres, workers)
+	for wk := 0; wk < workers; wk++ {
+		seed := c.Rng.Int63()
+		go func(seed int64) {
+			r := rand.New(rand.NewSource(seed))
+			var out []cres
+			for j := 0; j < per; j++ {
+				i := r.Intn(listLen)
+				out = append(out, cres{i, callReconstruct(i)})
+			}
+			resCh <- out
+		}(seed)
+	}
+	reported := false
+	for wk := 0; wk < workers; wk++ {
+		for _, cr := range <-resCh {
+			c.Case("pos-concurrent", true, fmt.Sprintf("pos %d", cr.i), cr.o.line(cr.i))
+			ok := cr.o.class == "ok"
+			if ok {
+				v, err := strconv.ParseUint(cr.o.msg.MessageID, 10, 64)
+				ok = err == nil && cr.i < len(lines) && cr.o.msg.MessageID == lines[cr.i] &&
+					hex.EncodeToString(cr.o.msg.Payload) == hex.EncodeToString(specSigningRoot(v))
+			}
+			if !ok && !reported {
+				reported = true
+				c.Fail(Failure{Property: "C17", Kind: "concurrent-wrong-message", Signature: map[string]interface{}{"kind": "concurrent-wrong-message"},
+					What:   fmt.Sprintf("with %d concurrent callers position %d yields a message that is not the spec signing root of its index", workers, cr.i),
+					Replay: map[string]interface{}{"position": cr.i, "observed": cr.o.line(cr.i), "concurrent_callers": workers}})
+			}
+		}
+	}
+	c.Notes["concurrent_calls"] = workers * per
 	c.Notes["positions"] = len(done)
 	c.Notes["indices"] = len(vals)
 	c.Notes["exhaustive_positions"] = !c.Quick()
